@@ -474,7 +474,7 @@ def write_replay(prop, machine, seed, idx, plan, v, digest):
     doc = {"format": 1, "property": prop, "machine": machine.name, "clause": v["clause"], "seed": seed, "run": idx,
            "plan": plan, "expected": {"op": v["op"], "class": v["class"], "clause": v["clause"],
                                       "detail": v["detail"], "site": v.get("site"), "tags": v.get("tags", [])},
-           "digest": "sha256:" + digest}
+           "digest": "sha256:" + digest, "hashseed": os.environ.get("PYTHONHASHSEED", "random")}
     with open(path, "w") as fh:
         json.dump(doc, fh, indent=1, default=_host._json_default)
     return path
@@ -553,7 +553,7 @@ def handle_violations(machine, prop, merged, shrink_budget=90.0, out=sys.stdout)
         # (4) replay in a new python process
         proc = subprocess.run([sys.executable, "-m", "simhost.check", prop, "--replay", path], cwd=VERIF,
                               capture_output=True, text=True, timeout=600,
-                              env=dict(os.environ, PYTHONHASHSEED="0"))
+                              env=dict(os.environ))  # same PYTHONHASHSEED: a hash-seed dependent defect must replay
         if "REPRODUCED" not in proc.stdout:
             print(f"HARNESS-NONDETERMINISM: property={prop} replay {path} did not reproduce in a fresh process:\n"
                   f"{proc.stdout[-800:]}{proc.stderr[-800:]}", file=out)
